@@ -12,4 +12,11 @@ MCExtsThorough == {<<2, 1, 2>>, <<1, 2, 1>>, <<2, 2, 1>>, <<1, 3, 2>>, <<3, 1, 1
 LawsView == <<arr, made>>
 GenExts == {<<2, 1, 2>>, <<1, 2, 1>>}
 GenExtsThorough == {<<2, 1, 2>>, <<1, 2, 1>>, <<1, 2, 2>>}
+\* negative control (must be VIOLATED): reading a negative z of a MultiSlice over all planes as the LAST
+\* slice (an unsigned wrap-around) is not the clamping the definitions state - the laws can tell the two apart
+NegSliceWrap ==
+  (made /\ arr.size[3] >= 2) =>
+     \A c \in Around(arr.size, 2) :
+        ActualGet(arr, <<c[1], c[2], IF c[3] < 0 THEN arr.size[3] - 1 ELSE c[3]>>)
+          = GetE(SlicesE([p \in 1..arr.size[3] |-> SubE(<<0, 0, p - 1>>, <<arr.size[1], arr.size[2], p>>, ArrLeaf(arr))]), c)
 ===============================================================================
